@@ -68,7 +68,8 @@ def layer1(chk, tier):
         # replay maximal histories (every prefix is compared on the way)
         maximal = [h for h in leaves if len(h) == depth]
         work = []
-        chunk = 400
+        maximal.sort()
+        chunk = 300
         for k in range(0, len(maximal), chunk):
             work.append({"cid": "%s%d" % (name, k), "op": "model_replay", "jobs": jobs,
                          "hists": [[list(a) for a in h] for h in maximal[k:k + chunk]], "timeout": 1200})
@@ -77,18 +78,17 @@ def layer1(chk, tier):
             rr = res[w["cid"]]
             if not rr.get("ok"):
                 raise RuntimeError("model replay failed: %s" % rr)
-            for h, obs in zip(w["hists"], rr["obs"]):
-                replayed += 1
-                for n in range(1, len(h) + 1):
-                    steps += 1
-                    known, proj = leaves[tuple(tuple(a) for a in h[:n])]
-                    ob = obs[n - 1]
-                    diff = compare(known, proj, ob)
-                    if diff:
-                        chk.violation("history %s on job set %s" % (h[:n], name), "model-replay:" + diff[0],
-                                      {"jobs": jobs, "history": h[:n], "difference": diff, "observed": ob,
-                                       "expected": repr((known, proj))[:3000]})
-                        break
+            import json
+            for key, ob in rr["obs"].items():
+                h = json.loads(key)
+                steps += 1
+                replayed += len(h) == depth
+                known, proj = leaves[tuple(tuple(a) for a in h)]
+                diff = compare(known, proj, ob)
+                if diff:
+                    chk.violation("history %s on job set %s" % (h, name), "model-replay:" + diff[0],
+                                  {"jobs": jobs, "history": h, "difference": diff, "observed": ob,
+                                   "expected": repr((known, proj))[:3000]})
     return states, gen, replayed, steps
 
 
